@@ -293,6 +293,24 @@ let apply (toks : string list) (buf : Buffer.t) =
    | "ead" -> single (u 1) (EntryAdd (parse_eid arr.(2), nat_of_int (u 3), nvc (u 3) 4))
    | "erm" -> single (u 1) (EntryRemove (parse_eid arr.(2), nat_of_int (u 3)))
    | "wrt" -> single (u 1) (WriteMut (parse_eid arr.(2), nat_of_int (u 3), nvc (u 3) 4))
+   | "ead2" ->
+     (* Entry::add(C1) then Entry::add(C2) / Entry::remove::<C2> through one entry = the two operations in sequence *)
+     let ws = u 1 in
+     ensure ws;
+     (match !worlds.(ws) with
+      | None -> ()
+      | Some w ->
+        let e = parse_eid arr.(2) in
+        (match step w (EntryAdd (e, nat_of_int (u 3), nvc (u 3) 4)) with
+         | None -> raise (ModelUB "ead2")
+         | Some ((w1, out1), ev1) ->
+           let second = if u 7 = 1 then EntryRemove (e, nat_of_int (u 5)) else EntryAdd (e, nat_of_int (u 5), nvc (u 5) 6) in
+           match step w1 second with
+           | None -> raise (ModelUB "ead2")
+           | Some ((w2, _), ev2) ->
+             !worlds.(ws) <- Some w2;
+             evs := fmt_events (ev1 @ ev2);
+             ret := (match out1 with OBool b -> "bool " ^ string_of_bool b | _ -> "rejected")))
    | "erm2" ->
      (* Entry::remove::<C> then Entry::add(C2) through one entry = the two operations in sequence *)
      let ws = u 1 in
